@@ -27,6 +27,10 @@ type schedReader struct {
 
 var errInjected = errors.New("injected stream failure")
 
+// set by the watching sink of the write stream when the counter ran ahead of (or behind) what
+// the sink had accepted at the start of one of its Write calls
+var inflightBad bool
+
 // tempError is what a connection with a read deadline reports: it says of itself that it is
 // temporary.  The decoder is not told that lost bytes will be re-sent: a failure is a failure.
 type tempError struct{}
@@ -119,7 +123,11 @@ func (w *byteFailWriter) WriteByte(b byte) error {
 }
 
 type failWriter struct {
-	buf    bytes.Buffer
+	// watch, when set, is the EncodingWriter that writes into this sink: at the start of every
+	// Write call its counter must equal what the sink has accepted so far (a progress display)
+	watch    *codec.EncodingWriter
+	watchBad bool
+	buf      bytes.Buffer
 	budget int
 	eager  bool
 	once   bool // the failure is transient: after reporting it once the sink accepts everything
@@ -127,6 +135,9 @@ type failWriter struct {
 }
 
 func (w *failWriter) Write(p []byte) (int, error) {
+	if w.watch != nil && w.watch.Written() != w.buf.Len() {
+		w.watchBad = true
+	}
 	if w.once && w.failed {
 		w.buf.Write(p)
 		return len(p), nil
@@ -540,6 +551,8 @@ func TestC13(t *testing.T) {
 				obs := guard(func() string {
 					fw := &failWriter{budget: p}
 					ew := codec.NewEncodingWriter(fw)
+					fw.watch = ew
+					defer func() { inflightBad = inflightBad || fw.watchBad }()
 					var err error
 					if kind == "view" {
 						vw, e2 := buildView(ty, v)
@@ -552,6 +565,10 @@ func TestC13(t *testing.T) {
 					}
 					return joinKV("err="+b01(err != nil), "accepted="+hexBytes(fw.buf.Bytes()), "written="+hx(uint64(ew.Written())))
 				})
+				if obs != "PANIC" && obs != "enc=ERR" {
+					obs += " inflight=" + b01(!inflightBad)
+				}
+				inflightBad = false
 				out.emit("write-"+kind, "c13w", []string{kind, ty.Sexp(), v.Sexp(), hx(uint64(p))}, obs)
 				{
 					// the same budget on a sink that also implements io.ByteWriter
